@@ -80,7 +80,8 @@ Definition set_chans (w : world) (E : env) : world := mk_world (subscribers w) E
 Definition init : world := mk_world [] (fun _ => fresh_chan).
 
 (* exceptions that can leave a dispatcher method *)
-Inductive exc := ExKeyError | ExChan (f : fault).
+(* ExQueue: queue.get() itself raised an OSError (the queued item could not be received) *)
+Inductive exc := ExKeyError | ExChan (f : fault) | ExQueue.
 Inductive res (A : Type) := Ret (a : A) | Raise (e : exc).
 Arguments Ret {A} a.
 Arguments Raise {A} e.
@@ -224,6 +225,30 @@ Definition run (cfg : catch_cfg) (w : world) (q : list op) : world * res unit * 
   match run_loop cfg w q 0 with
   | (w1, _, n) =>        (* `except Exception: logger.exception(...)` swallows the loop's exception *)
       match _broadcast cfg w1 MShutdown with       (* finally: *)
+      | (w2, r) => (w2, r, n)
+      end
+  end.
+
+(* The same loop when queue.get() can fail: an item that cannot be received (a SUBSCRIBE whose
+   Connection cannot be rebuilt because the subscribing process is gone: ConnectionRefusedError from
+   the unpickler) makes run_once() raise before handle_event is reached; run() only expects queue.Empty. *)
+Inductive qitem := Item (o : op) | GetRaises.
+
+Fixpoint run_loop_q (cfg : catch_cfg) (w : world) (q : list qitem) (n : N) : world * res unit * N :=
+  match q with
+  | [] => (w, Ret tt, n)
+  | GetRaises :: _ => (w, Raise ExQueue, N.succ n)
+  | Item o :: t =>
+      match step cfg w o with
+      | (w1, Ret _) => run_loop_q cfg w1 t (N.succ n)
+      | (w1, Raise e) => (w1, Raise e, N.succ n)
+      end
+  end.
+
+Definition run_q (cfg : catch_cfg) (w : world) (q : list qitem) : world * res unit * N :=
+  match run_loop_q cfg w q 0 with
+  | (w1, _, n) =>
+      match _broadcast cfg w1 MShutdown with
       | (w2, r) => (w2, r, n)
       end
   end.
